@@ -308,3 +308,24 @@ def locate(func):
         if j is not None:
             m[i] = elem[j]
     return m
+
+
+def path_between(func, a, b):
+    """is there a CFG path on which node a is evaluated and node b is evaluated later? (a, b: nodes located in the CFG)"""
+    loc = locate(func)
+    if a['i'] not in loc or b['i'] not in loc:
+        return False
+    (ba, pa), (bb, pb) = loc[a['i']], loc[b['i']]
+    if ba == bb and (pa, a['i']) < (pb, b['i']):
+        return True
+    cfg = func.cfg
+    seen, stack = set(), [s for s in cfg.succ[ba] if s is not None]
+    while stack:
+        x = stack.pop()
+        if x in seen:
+            continue
+        seen.add(x)
+        if x == bb:
+            return True
+        stack.extend(s for s in cfg.succ[x] if s is not None)
+    return False
